@@ -5,12 +5,13 @@
      `BlockOK hit stop` (what one 8-byte block must satisfy).
    * `blockOK_of_lanes`: `BlockOK` follows from the lane-level facts `LanesOK` (prefix-correctness of the
      hit mask: below the first stop byte every lane of the mask is exactly "is a stop byte").
-   * `hitUri_lanes`, `hitPath_lanes`: the lane-level facts on eight symbolic `BitVec 8` lanes, by `bv_decide`
-     (the ONLY two uses of `bv_decide`).
+   * `hitUri_lanes`, `hitPath_lanes`: the lane-level facts on eight symbolic `BitVec 8` lanes, from the
+     kernel-checked lane arithmetic of `Khttp.Lemmas.SwarKernel` (no borrow enters a lane below the first
+     stop byte; 8-bit truth tables by `decide`).  No `bv_decide`.
    * bridges `leWord8`, `hitUri_eq`, `hitPath_eq`, `uriStop_iff`, `pathStop_iff` from the model to the
      closed bit-vector terms. -/
 import Khttp.Model.Swar
-import Std.Tactic.BVDecide
+import Khttp.Lemmas.SwarKernel
 namespace Khttp
 namespace SwarPf
 
@@ -218,7 +219,29 @@ theorem pathStop_iff (a : UInt8) : pathStop a = true ↔ StopP a.toBitVec := by
 theorem pathStop_iff' (a : UInt8) : pathStop a = false ↔ ¬ StopP a.toBitVec := by
   rw [← pathStop_iff]; simp
 
-/-! ### the two SWAR lane lemmas (`bv_decide`) -/
+/-! ### the two SWAR lane lemmas -/
+
+theorem lane_W (b0 b1 b2 b3 b4 b5 b6 b7 : BitVec 8) :
+    lane (W b0 b1 b2 b3 b4 b5 b6 b7) 0 = b0 ∧ lane (W b0 b1 b2 b3 b4 b5 b6 b7) 1 = b1 ∧
+    lane (W b0 b1 b2 b3 b4 b5 b6 b7) 2 = b2 ∧ lane (W b0 b1 b2 b3 b4 b5 b6 b7) 3 = b3 ∧
+    lane (W b0 b1 b2 b3 b4 b5 b6 b7) 4 = b4 ∧ lane (W b0 b1 b2 b3 b4 b5 b6 b7) 5 = b5 ∧
+    lane (W b0 b1 b2 b3 b4 b5 b6 b7) 6 = b6 ∧ lane (W b0 b1 b2 b3 b4 b5 b6 b7) 7 = b7 := by
+  unfold W
+  have s := fun (a : BitVec 8) (r : BitVec 64) (k : Nat) (hk : k + 1 < 8) =>
+    SwarK.lane_cons_succ a r k hk
+  refine ⟨?_, ?_, ?_, ?_, ?_, ?_, ?_, ?_⟩
+  · exact SwarK.lane_cons_zero _ _
+  · rw [s _ _ 0 (by omega), SwarK.lane_cons_zero]
+  · rw [s _ _ 1 (by omega), s _ _ 0 (by omega), SwarK.lane_cons_zero]
+  · rw [s _ _ 2 (by omega), s _ _ 1 (by omega), s _ _ 0 (by omega), SwarK.lane_cons_zero]
+  · rw [s _ _ 3 (by omega), s _ _ 2 (by omega), s _ _ 1 (by omega), s _ _ 0 (by omega),
+      SwarK.lane_cons_zero]
+  · rw [s _ _ 4 (by omega), s _ _ 3 (by omega), s _ _ 2 (by omega), s _ _ 1 (by omega),
+      s _ _ 0 (by omega), SwarK.lane_cons_zero]
+  · rw [s _ _ 5 (by omega), s _ _ 4 (by omega), s _ _ 3 (by omega), s _ _ 2 (by omega),
+      s _ _ 1 (by omega), s _ _ 0 (by omega), SwarK.lane_cons_zero]
+  · rw [s _ _ 6 (by omega), s _ _ 5 (by omega), s _ _ 4 (by omega), s _ _ 3 (by omega),
+      s _ _ 2 (by omega), s _ _ 1 (by omega), s _ _ 0 (by omega), SwarK.lane_cons_zero]
 
 theorem hitUri_lanes (b0 b1 b2 b3 b4 b5 b6 b7 : BitVec 8) :
     (hU (W b0 b1 b2 b3 b4 b5 b6 b7) = 0 ↔
@@ -230,8 +253,12 @@ theorem hitUri_lanes (b0 b1 b2 b3 b4 b5 b6 b7 : BitVec 8) :
     (¬ StopU b0 → ¬ StopU b1 → ¬ StopU b2 → ¬ StopU b3 → ((hU (W b0 b1 b2 b3 b4 b5 b6 b7) >>> (8 * 4)).setWidth 8 ≠ 0 ↔ StopU b4)) ∧
     (¬ StopU b0 → ¬ StopU b1 → ¬ StopU b2 → ¬ StopU b3 → ¬ StopU b4 → ((hU (W b0 b1 b2 b3 b4 b5 b6 b7) >>> (8 * 5)).setWidth 8 ≠ 0 ↔ StopU b5)) ∧
     (¬ StopU b0 → ¬ StopU b1 → ¬ StopU b2 → ¬ StopU b3 → ¬ StopU b4 → ¬ StopU b5 → ((hU (W b0 b1 b2 b3 b4 b5 b6 b7) >>> (8 * 6)).setWidth 8 ≠ 0 ↔ StopU b6)) := by
-  unfold hU W StopU
-  bv_decide
+  obtain ⟨w0, w1, w2, w3, w4, w5, w6, w7⟩ := lane_W b0 b1 b2 b3 b4 b5 b6 b7
+  have H := SwarK.assemble (hU (W b0 b1 b2 b3 b4 b5 b6 b7))
+    (fun k => StopU (lane (W b0 b1 b2 b3 b4 b5 b6 b7) k))
+    (fun k hk h => SwarK.hU'_lane_iff _ k hk h)
+  simp only [w0, w1, w2, w3, w4, w5, w6, w7] at H
+  exact H
 
 theorem hitPath_lanes (b0 b1 b2 b3 b4 b5 b6 b7 : BitVec 8) :
     (hP (W b0 b1 b2 b3 b4 b5 b6 b7) = 0 ↔
@@ -243,8 +270,12 @@ theorem hitPath_lanes (b0 b1 b2 b3 b4 b5 b6 b7 : BitVec 8) :
     (¬ StopP b0 → ¬ StopP b1 → ¬ StopP b2 → ¬ StopP b3 → ((hP (W b0 b1 b2 b3 b4 b5 b6 b7) >>> (8 * 4)).setWidth 8 ≠ 0 ↔ StopP b4)) ∧
     (¬ StopP b0 → ¬ StopP b1 → ¬ StopP b2 → ¬ StopP b3 → ¬ StopP b4 → ((hP (W b0 b1 b2 b3 b4 b5 b6 b7) >>> (8 * 5)).setWidth 8 ≠ 0 ↔ StopP b5)) ∧
     (¬ StopP b0 → ¬ StopP b1 → ¬ StopP b2 → ¬ StopP b3 → ¬ StopP b4 → ¬ StopP b5 → ((hP (W b0 b1 b2 b3 b4 b5 b6 b7) >>> (8 * 6)).setWidth 8 ≠ 0 ↔ StopP b6)) := by
-  unfold hP W StopP StopU
-  bv_decide
+  obtain ⟨w0, w1, w2, w3, w4, w5, w6, w7⟩ := lane_W b0 b1 b2 b3 b4 b5 b6 b7
+  have H := SwarK.assemble (hP (W b0 b1 b2 b3 b4 b5 b6 b7))
+    (fun k => StopP (lane (W b0 b1 b2 b3 b4 b5 b6 b7) k))
+    (fun k hk h => SwarK.hP'_lane_iff _ k hk h)
+  simp only [w0, w1, w2, w3, w4, w5, w6, w7] at H
+  exact H
 
 theorem lanesOK_uri : LanesOK hitUri uriStop := by
   intro a0 a1 a2 a3 a4 a5 a6 a7 h hh
